@@ -51,7 +51,8 @@ def plan(tier: str, seed: int) -> Plan:
         for viastr in (False, True):
             ue = (b + int(viastr)) % 2 == 0
             bk = (b + 2 * int(viastr)) % 3
-            conds.append(Condition(f"apply:base={b}:viastr={viastr}:ue={ue}:basekind={bk}", "apply", H, "apply_relative",
+            for bk in ([0, 1, 2] if thorough else [bk]):
+              conds.append(Condition(f"apply:base={b}:viastr={viastr}:ue={ue}:basekind={bk}", "apply", H, "apply_relative",
                                    {"unicode_escape": ue, "suffixes": 10 if thorough else 6, "offsets": 10 if thorough else 8, "basekind": bk,
                                     "lasts": 6 if thorough else 3, "base": b, "viastr": viastr, "maxsteps": 4 if thorough else 2}, T * 2,
                                    required=False,
